@@ -32,3 +32,4 @@ MUTANTS.append(dict(name="postprocess-receives-runtime-copies", file='generator/
     old="[str(p) for p in self._without_runtime_copies(generated_files, core_dir)]", new="[str(p) for p in generated_files]"))
 MUTANTS.append(dict(name="runtime-copy-filter-inverted-source", file='generator/client_generator.py', expect="R12.6",
     old="for _, _, rel_dst in RUNTIME_FILES}", new="for _, _, rel_dst in []}"))
+MUTANTS.append(dict(name="typing-names-from-backport-package", file='context/render_context.py', expect="R12.4", old='                self.add_import("typing", name, is_typing_import=True)\n', new='                typing_module = "typing_extensions" if name in {"Self", "Required", "NotRequired"} else "typing"\n                self.add_import(typing_module, name, is_typing_import=True)\n'))
